@@ -143,10 +143,6 @@ Qed.
 
 (* ------------------------------------------------------------------ Part B: the encoder's frame *)
 
-Definition frame_fields (bs : str) (m : message) (sess : session) (seq time : str) : list str :=
-  field T8 bs :: field T9 (n_to_dec (enc_blen m sess seq time)) :: enc_fields m sess seq time
-  ++ [field T10 (fmt03 (enc_ck bs m sess seq time))].
-
 Lemma flat_concat : forall fs, concat (map (fun f => f ++ SOHs) fs) = flat fs.
 Proof. reflexivity. Qed.
 
@@ -1347,6 +1343,70 @@ Corollary roundtrip_depth1 : forall G bs m sess time raw frame sess',
     /\ seq_clause m sess raw seq sess'.
 Proof. intros. eapply roundtrip; eassumption. Qed.
 
+(* ------------------------------------------------------------------ D5 as a per-field predicate *)
+
+Lemma find_sub_some_app : forall p a b k, find_sub p a = Some k -> find_sub p (a ++ b) <> None.
+Proof.
+  intros p a. induction a as [|x a IH]; intros b k H.
+  - rewrite find_sub_nil in H. destruct (prefixb p []) eqn:E; [|discriminate].
+    rewrite (find_sub_head p ([] ++ b)); [discriminate | apply prefixb_app_r; assumption].
+  - cbn [app]. rewrite find_sub_cons in *. destruct (prefixb p (x :: a)) eqn:E.
+    + pose proof (prefixb_app_r p (x :: a) b E) as E'. cbn [app] in E'. rewrite E'. discriminate.
+    + destruct (prefixb p (x :: a ++ b)); [discriminate|].
+      destruct (find_sub p a) as [k'|] eqn:F; [|discriminate].
+      specialize (IH b k' eq_refl). destruct (find_sub p (a ++ b)); [discriminate | contradiction].
+Qed.
+
+Definition marker_free (s : str) : bool := negb (contains_sub MARK s).
+
+Lemma marker_free_spec : forall s, marker_free s = true <-> find_sub MARK s = None.
+Proof. intro s. unfold marker_free, contains_sub. destruct (find_sub MARK s); split; (discriminate || reflexivity). Qed.
+
+Lemma flat_marker_free : forall fs, marker_free (flat fs) = forallb marker_free fs.
+Proof.
+  induction fs as [|f fs IH]; [reflexivity|].
+  rewrite flat_cons. cbn [forallb]. rewrite <- IH.
+  destruct (marker_free f) eqn:Ef.
+  - apply marker_free_spec in Ef. cbn [andb].
+    destruct (marker_free (flat fs)) eqn:Er.
+    + apply marker_free_spec in Er. apply marker_free_spec.
+      apply (find_sub_none_sep 1 MARK f (flat fs) MARK_soh_free MARK_nonempty Ef Er).
+    + unfold marker_free, contains_sub in *.
+      rewrite (find_sub_sep 1 MARK f (flat fs) MARK_soh_free MARK_nonempty Ef).
+      destruct (find_sub MARK (flat fs)); [reflexivity | discriminate].
+  - cbn [andb]. unfold marker_free, contains_sub in *.
+    destruct (find_sub MARK f) as [k|] eqn:F; [|discriminate].
+    pose proof (find_sub_some_app MARK f (1 :: flat fs) k F) as H.
+    destruct (find_sub MARK (f ++ 1 :: flat fs)); [reflexivity | contradiction].
+Qed.
+
+(* exact: the marker occurs past offset 0 of the frame iff it occurs in a field after the first, or in
+   the first field from offset 5 on *)
+Lemma no_marker_fields : forall f0 fs, (5 <= length f0)%nat ->
+  no_marker (flat (f0 :: fs)) = marker_free (skipn 5 f0) && no_marker_in_fields fs.
+Proof.
+  intros f0 fs H5. unfold no_marker, no_marker_in_fields.
+  change (forallb (fun f => negb (contains_sub MARK f)) fs) with (forallb marker_free fs).
+  rewrite <- flat_marker_free, flat_cons, (skipn_app_le 5 f0 _ H5).
+  assert (Hm : forall s, match find_sub MARK s with None => true | Some _ => false end = marker_free s)
+    by (intro s; unfold marker_free, contains_sub; destruct (find_sub MARK s); reflexivity).
+  rewrite Hm.
+  pose proof (flat_marker_free (skipn 5 f0 :: fs)) as H. rewrite flat_cons in H. rewrite H.
+  cbn [forallb]. rewrite flat_marker_free. reflexivity.
+Qed.
+
+Lemma no_marker_frame_fields : forall bs m sess time raw frame sess' seq,
+  wf_bs bs = true -> encode bs m sess time raw = Ok (frame, sess') -> select_seq m sess raw = Ok (seq, sess') ->
+  no_marker frame = no_marker_fields_b bs m sess seq time.
+Proof.
+  intros bs m sess time raw frame sess' seq Hbs Henc Hseq.
+  unfold no_marker_fields_b. fold (marker_free (skipn 5 (field T8 bs))).
+  destruct (encode_shape _ _ _ _ _ _ _ Henc) as [seq0 [rest [Hseq0 [_ HF]]]].
+  assert (seq0 = seq) by congruence. subst seq0. rewrite HF. unfold frame_fields. cbn [tl].
+  apply no_marker_fields. unfold wf_bs in Hbs. apply andb_true_iff in Hbs as [Hb _].
+  apply prefixb_length in Hb. unfold FIXDOT in Hb. unfold field, T8. rewrite app_length. cbn [length] in *. lia.
+Qed.
+
 (* ------------------------------------------------------------------ the FIX 4.4 table, witnesses *)
 From Coq Require Import String Ascii.
 From AFGen Require Import GenGroups.
@@ -1405,3 +1465,29 @@ Proof.
   intros m [E|E]; subst m; repeat split; try (vm_compute; reflexivity);
     eexists; vm_compute; reflexivity.
 Qed.
+
+(* the structural hypotheses of wf_msg are forced too: three messages whose groups use member tags
+   only, outside wf_msg, that decode to a different structure *)
+Definition ex_follower : message :=    (* root-level Commission after NoAllocs: absorbed into the last item *)
+  mkMsg (txt "D") [plain "11" "id1"; grp "78" [[plain "79" "acc"; plain "80" "100"]]; plain "12" "5.0"].
+Definition ex_item_head : message :=   (* second item does not repeat a tag of the first: items merge *)
+  mkMsg (txt "D") [plain "11" "id1"; grp "78" [[plain "79" "a"]; [plain "80" "b"]]].
+Definition ex_item_group_head : message :=   (* items that start with a nested group: nested groups merge *)
+  mkMsg (txt "D") [plain "11" "id1"; grp "78" [[grp "539" [[plain "524" "p"]]]; [grp "539" [[plain "524" "q"]]]]].
+
+Definition decoded_tag (m : message) (t : string) : option value :=
+  match decode GenGroups.table beginstring (ex_frame m) true with
+  | Ok (Some d, _, _) => ct_get (txt t) (msg_tags d)
+  | _ => None
+  end.
+
+Lemma structure_refuted :
+  (wf_msg GenGroups.table ex_follower = false /\ no_marker (ex_frame ex_follower) = true
+   /\ decoded_tag ex_follower "78" = Some (VGrp [[plain "79" "acc"; plain "80" "100"; plain "12" "5.0"]])
+   /\ decoded_tag ex_follower "12" = None)
+  /\ (wf_msg GenGroups.table ex_item_head = false /\ no_marker (ex_frame ex_item_head) = true
+      /\ decoded_tag ex_item_head "78" = Some (VGrp [[plain "79" "a"; plain "80" "b"]]))
+  /\ (wf_msg GenGroups.table ex_item_group_head = false /\ no_marker (ex_frame ex_item_group_head) = true
+      /\ decoded_tag ex_item_group_head "78"
+         = Some (VGrp [[grp "539" [[plain "524" "p"]; [plain "524" "q"]]]])).
+Proof. repeat split; vm_compute; reflexivity. Qed.
